@@ -12,6 +12,7 @@ CONSTANTS
   TypeOf <- MCTypeOf
   RootTypes <- MCRoot
   Edits <- MCEdits
+  EncToks <- MCEncNone
   HelperToks <- MCHelpers
   ImportToks <- MCImports
   CmtToks <- MCCmt
